@@ -11,3 +11,7 @@ mod watermark_test;
 
 pub use refresher::DeltaRefresher;
 pub use schema::SchemaBuilder;
+/// Verification hook (compiled only with `--cfg sneldb_verif`): the delta de-duplicator, so that it can
+/// be driven with generated batches.
+#[cfg(sneldb_verif)]
+pub use watermark::WatermarkDeduplicator;
